@@ -460,3 +460,45 @@ def run_feature_dispatch(prog, rep, multi):
             raise AnalysisBroken('R-FEATURE: no returning path for link type %s' % kind)
         rule.check(not probs, '%s|%s' % ('featureData(MultiTag)' if multi else 'featureData(Tag)', kind), rep.where(f), f.label(), '%s case as specified (%d paths)' % (kind, len(res)), '; '.join(sorted(set(probs))[:2]))
     return rule
+
+
+def run_forward(prog, rep, which=('Tag', 'MultiTag')):
+    """a function that is given a RangeMatch mode hands exactly that mode to every callee that takes one"""
+    rule = rep.rule('R-FORWARD', 'every retrieval function passes its RangeMatch argument on to each callee that takes a RangeMatch (no defaulted or constant mode in between)', floor=12)
+    n = 0
+    for f in sorted(prog.funcs.values(), key=lambda f: (f.file, f.line)):
+        if f.body is None or not f.q.startswith('nix::') or f.q.startswith('nix::hdf5::'):
+            continue
+        mp = [p for p in f.params if 'RangeMatch' in p['type']]
+        if len(mp) != 1:
+            continue
+        if not any(w in f.sig or w in f.q for w in which):
+            continue
+        mv = ('v', mp[0]['lid'], mp[0]['name'])
+        for c in f.calls():
+            sig = split_sig_types(c.callee.get('sig') or '()')
+            idx = [i for i, t in enumerate(sig) if 'RangeMatch' in t]
+            if not idx or not (c.callee.get('q') or '').startswith('nix::'):
+                continue
+            args = real_args(c)
+            j = idx[0]
+            n += 1
+            key = '%s%s|%s@%s' % (f.q, _sigkey(f), c.callee.get('name'), '%s' % len([x for x in f.calls() if x.id < c.id and x.callee.get('name') == c.callee.get('name')]))
+            if j >= len(args) or args[j] is None:
+                rule.bad(key, rep.where(c), f.label(), 'the callee\'s RangeMatch parameter is not supplied')
+                continue
+            a = unwrap(args[j])
+            if a.k == 'defarg':
+                rule.bad(key, rep.where(c), f.label(), 'calls %s without the mode it was given: the callee falls back to its default (%s) whatever the caller asked for' % (c.callee.get('name'), a.src(40)))
+            elif term(a) != mv:
+                rule.bad(key, rep.where(c), f.label(), 'passes %s as the mode instead of its own parameter %s' % (a.src(40), mp[0]['name']))
+            else:
+                rule.ok(key, rep.where(c), f.label(), 'forwards %s' % mp[0]['name'])
+    if n < 12:
+        raise AnalysisBroken('R-FORWARD: only %d mode-forwarding call sites found' % n)
+    return rule
+
+
+def split_sig_types(sig):
+    from ..sem import split_sig
+    return split_sig(sig)
